@@ -980,11 +980,11 @@ func SplitMrt(data []byte, atEOF bool) (advance int, token []byte, err error) {
 	if len(data) < MRT_COMMON_HEADER_LEN { // read more
 		return 0, nil, nil
 	}
-	hdr, errh := ParseHeader(data[:MRT_COMMON_HEADER_LEN])
-	if errh != nil {
-		return 0, nil, errh
-	}
-	totlen := int(hdr.Len + MRT_COMMON_HEADER_LEN)
+	// RFC 6396 section 2: the record is the 12-octet common header followed by
+	// Length octets (for the *_ET types the microsecond timestamp is part of
+	// them), so only the Length field is needed to frame it.
+	recLen := binary.BigEndian.Uint32(data[8:MRT_COMMON_HEADER_LEN])
+	totlen := int(recLen + MRT_COMMON_HEADER_LEN)
 	if len(data) < totlen { // need to read more
 		return 0, nil, nil
 	}
